@@ -137,7 +137,10 @@ def do_check(prop, tier):
     stats = {}
     samples = []
     stopped_early = False
-    for part in spec["parts"](tier):
+    only_part = os.environ.get("VERIF_ONLY_PART")   # experiments: run one part (engine + parameters) of a check only
+    for part_no, part in enumerate(spec["parts"](tier)):
+        if only_part is not None and str(part_no) != only_part:
+            continue
         n_runs = int(os.environ.get("VERIF_RUNS", part["runs"]))
         try:
             summ = runner.explore(
